@@ -398,6 +398,43 @@ def random_history(case, nsteps, weights):
             if not rows:
                 continue
             line, d = case.step_check(rng.choice(rows))
+        elif kind == "transfer":
+            # the daemon's own chain for one pending request: update_pull -> [pre-pull search ->] pull task,
+            # with operator commands (never environment faults) possibly in between
+            rows = [r for r in db.ArchiveFileCopyRequest.select() if not r.completed and not r.cancelled]
+            if not rows:
+                continue
+            rq = rng.choice(rows)
+            dest = db.StorageNode.get(db.StorageNode.group == rq.group_to_id)
+            if dest.host != "h1" or not dest.active:
+                continue
+            f = db.ArchiveFile.get(id=rq.file_id)
+            chain = dict(kind="chain", file=f.id, dest=dest.id, dst_at_start=case.w.file_on(dest, f),
+                         dest_state_at_start=(db.ArchiveFileCopy.get_or_none(file=f, node=dest) or type("x", (), {"has_file": "N"})).has_file)
+            sub = []
+            l1, d1 = case.step_decide(db.ArchiveFileCopyRequest.get(id=rq.id))
+            sub.append((l1, d1))
+            go = d1["decision"].startswith("dispatch")
+            force = d1["decision"] == "dispatch:1"
+            if go and not force:
+                l2, d2 = case.step_search(db.ArchiveFileCopyRequest.get(id=rq.id), dest)
+                sub.append((l2, d2))
+                go = d2["passOn"]
+            if go:
+                l3, d3 = case.step_pull(db.ArchiveFileCopyRequest.get(id=rq.id), dest)
+                d3["chain"] = chain
+                d3["forced"] = force
+                sub.append((l3, d3))
+                if (chain["dst_at_start"] is not None and d3["dst_after"] is not None and d3["dst_after"] != chain["dst_at_start"]
+                        and chain["dest_state_at_start"] != "X"):
+                    problems.append(("overwrite", f"destination file of file {f.id} on node {dest.id} (copy state "
+                                     f"{chain['dest_state_at_start']}) was overwritten by a pull without having been verified corrupt", d3))
+            for (l, dd) in sub:
+                lines.append(l); exp.append(None)
+                lines.append("w.dump"); exp.append(None)
+                steps.append(dd)
+            exp[-1] = case.real_dump()
+            continue
         elif kind in ("decide", "search", "pull"):
             rows = list(db.ArchiveFileCopyRequest.select())
             if not rows:
